@@ -409,8 +409,8 @@ def run_case(case, order, mon, max_extra_steps=3, watch_updates=False):
 def case_public(case):
     """JSON-friendly summary for samples / replay."""
     keep = ["variant", "cone", "W", "m", "K", "mu", "eps", "delta", "noise_var", "contraction", "batch", "ds_family", "scale",
-            "model", "stub_mode", "obs_mode", "costs", "budget", "rho_s", "rho_g", "seed", "max_rounds", "hetero"]
-    return {k: case.get(k) for k in keep}
+            "model", "stub_mode", "obs_mode", "costs", "budget", "rho_s", "rho_g", "seed", "max_rounds", "hetero", "in_dim", "depth_max", "n_train", "fixed_boxes", "L"]
+    return {k: case.get(k) for k in keep if k in case}
 
 
 # ---------------------------------------------------------------------------------------
@@ -521,4 +521,42 @@ def run_ad_case(case, order, mon, per_step=None):
         if rec["crash"] is not None:
             tr.crashed = rec["crash"]
             break
+    return tr
+
+
+# ---------------------------------------------------------------------------------------
+# replay support: rebuild a case from the JSON written with a violation
+# ---------------------------------------------------------------------------------------
+def case_from_public(d):
+    case = dict(d)
+    for k in ("W", "mu"):
+        if case.get(k) is not None:
+            case[k] = np.array(case[k], float)
+    if case.get("variant") == "VOGP_AD":
+        order = gen.make_order("W", W=case["W"])
+        return case, order
+    case["X"] = stubs.grid_inputs(len(case["mu"]), 2)
+    case.setdefault("max_rounds", 150)
+    case.setdefault("L", 5)
+    fam = VARIANTS[case["variant"]]["family"]
+    if fam in ("auer", "epal"):
+        order = gen.make_order("orthant", m=case["m"])
+    else:
+        order = gen.make_order("W", W=case["W"])
+    return case, order
+
+
+def replay_runs(mon, rec, checker):
+    """re-run the recorded case and apply `checker(mon, tr)`."""
+    c = rec["case"]
+    case, order = case_from_public({k: v for k, v in c.items() if k in (
+        "variant", "cone", "W", "m", "K", "mu", "eps", "delta", "noise_var", "contraction", "batch", "ds_family", "scale", "model",
+        "stub_mode", "obs_mode", "costs", "budget", "rho_s", "rho_g", "seed", "max_rounds", "hetero", "in_dim", "depth_max", "n_train",
+        "fixed_boxes", "L")})
+    if case["variant"] == "VOGP_AD":
+        tr = run_ad_case(case, order, mon)
+    else:
+        tr = run_case(case, order, mon)
+    print(f"replayed {case['variant']} seed={case['seed']}: steps={len(tr.steps)} terminated={tr.terminated} crashed={tr.crashed!r}")
+    checker(mon, tr)
     return tr
